@@ -217,6 +217,10 @@ func sortStrings(s []string) {
 }
 
 func c04Body(c *core.Ctx) {
+	if c.Mode == "base" {
+		c04BaseBody(c)
+		return
+	}
 	vexec.Init()
 	gen := GenOpts{MaxN: 5, Retries: true, Preconds: true, ContinueOn: true, Failures: true, MaxActive: true, Handlers: true}
 	handle := func(idx int, spec *vexec.CaseSpec, out *vexec.Outcome) {
@@ -388,9 +392,10 @@ func init() {
 			return []core.Pass{
 				{Name: "main", Mode: "controlled", Shards: 16, Timeout: 40 * time.Minute},
 				{Name: "race", Mode: "free", Race: true, Shards: 16, Timeout: 40 * time.Minute},
+				{Name: "base", Mode: "base", Shards: 12, Timeout: 40 * time.Minute},
 			}
 		},
-		Rule: "Cases: all 81 absent/ok/fail assignments of the four handlers x {no stop, no stop, Signal, Cancel} on random DAGs <=3 steps; random DAGs <=5 steps with retries, continueOn, preconditions, set-up failures (unwritable stdout), maxActiveRuns, and in 35% a stop (Scheduler.Signal / Cancel, or Agent.Signal / POST /stop over the real socket at agent level) landed synchronously at a PRNG-chosen decision point or hook instant (launch, before exec, retry wait); agent-level runs through Agent.Run with real jsondb incl. unmet DAG preconditions; free-running pass under -race. Oracle: Scheduler.Status / Agent.Status label vs the final step states (stop-after-completion is not judged), exactly-once matching handler after wg.Wait and after the last step's Run() exit, non-matching handlers never, onExit once and last, handler state == scripted result. Non-trivial = handlers configured or a stop injected. Distinct = (shape+flags+handlers+stop, event order).",
+		Rule: "Cases: all 81 absent/ok/fail assignments of the four handlers x {no stop, no stop, Signal, Cancel} on random DAGs <=3 steps; random DAGs <=5 steps with retries, continueOn, preconditions, set-up failures (unwritable stdout), maxActiveRuns, and in 35% a stop (Scheduler.Signal / Cancel, or Agent.Signal / POST /stop over the real socket at agent level) landed synchronously at a PRNG-chosen decision point or hook instant (launch, before exec, retry wait); agent-level runs through Agent.Run with real jsondb incl. unmet DAG preconditions; free-running pass under -race. Oracle: Scheduler.Status / Agent.Status label vs the final step states (stop-after-completion is not judged), exactly-once matching handler after wg.Wait and after the last step's Run() exit, non-matching handlers never, onExit once and last, handler state == scripted result. Base pass: 64 (all 480) combinations of {handlers defined in the base configuration file} x {handlers defined in the DAG} x {the run succeeds, fails}, real binary, every handler a probe child: exactly the matching handlers run once each, the DAG's own one where both define the type, the base's where only the base does. Non-trivial = handlers configured or a stop injected. Distinct = (shape+flags+handlers+stop, event order).",
 		Assumptions: []string{"label after a stop that arrives when all steps have completed is not judged here (C05)",
 			"when a stop coincides with an independent step failure both canceled and failed are accepted"}})
 }
